@@ -14,6 +14,10 @@ package inactivity
 // registers.
 //
 // Observation: the BaseAsyncState history before and after Receive.
+//
+// Streams (AdmissionLoop.tla): sequences of 1..3 messages are delivered to one
+// claimSigningState and the history is compared with the specified list of
+// admitted messages, in order.
 
 import (
 	"fmt"
@@ -67,4 +71,32 @@ func TestVerif_C12_Inactivity(t *testing.T) {
 		}
 	}
 	verifadm.Run(t, rep, w, steps, cases, drivers)
+
+	// streams of messages (specs/Admission/AdmissionLoop.tla): the history after 1..3 deliveries
+	verifadm.RunSequences(t, rep, "pkg/protocol/inactivity/claimSigningState", func(q *verifadm.Sequence) (verifadm.LoopState, string, error) {
+		var out verifadm.LoopState
+		base := state.NewBaseAsyncState()
+		member := newSigningMember(&testutils.MockLogger{}, group.MemberIndex(q.Msgs[0].Recv), w.N, 1, validator, verifadm.SessionOK)
+		(&verifadm.Case{Excl: q.Excl}).MarkCurrent(member.group)
+		st := &claimSigningState{BaseAsyncState: base, channel: ch, member: member}
+		number := map[interface{}]int{}
+		for i, c := range q.Msgs {
+			p, err := payload(c, "claimSignatureMessage")
+			if _, _, e, stop := verifadm.Dropped(err); stop {
+				if e != nil {
+					return out, "", e
+				}
+				continue // dropped by the decoder
+			}
+			msg := w.Net(c, p)
+			number[msg] = i + 1
+			if err := st.Receive(msg); err != nil {
+				return out, "", err
+			}
+		}
+		for _, m := range base.GetAllReceivedMessages((&claimSignatureMessage{}).Type()) {
+			out.Stored = append(out.Stored, number[m])
+		}
+		return out, "", nil
+	})
 }
